@@ -286,7 +286,8 @@ func outcomeDiff(cmd *Cmd, a, b Outcome) string {
 			return fmt.Sprintf("description %+v vs %+v", *a.Desc, *b.Desc)
 		}
 		for n, ca := range a.Desc.IdxCount {
-			if cb, ok := b.Desc.IdxCount[n]; ok && ca != cb {
+			// compared where both SDK outputs carry a count
+			if cb, ok := b.Desc.IdxCount[n]; ok && ca >= 0 && cb >= 0 && ca != cb {
 				return fmt.Sprintf("index %s ItemCount %d vs %d", n, ca, cb)
 			}
 		}
@@ -311,6 +312,9 @@ func (e *Engine) exec1(step int, cmd *Cmd, twin bool) {
 	e.res.NSteps++
 	mc := e.M.Clients[cmd.C]
 	drv := e.Drv[cmd.C]
+	if cmd.RetOnFail && e.W.SDKs[cmd.C] == "v1" {
+		cmd.RetOnFail = false // the SDK v1 request types have no ReturnValuesOnConditionCheckFailure
+	}
 	e.logf("%d %s", step, cmd.String())
 
 	// ---- commands that only make sense relative to earlier ones
@@ -454,17 +458,16 @@ func (e *Engine) afterStep(step int, cmd *Cmd, got Outcome, ex Expect, st *Step)
 				fails = append(fails, Fail{"C13.reject", msg})
 			}
 		}
+		if ex.MayAccept && got.OK() && prev[c] != "" && prev[c] != e.lastSig[c] {
+			// a request that DynamoDB rejects was accepted and did something: whether
+			// it is rejected is not a claimed property, and the model cannot follow
+			e.quiet("accepted request outside the claimed properties changed the state")
+			return
+		}
 		// (b) the state equals the model
 		for _, d := range CompareModel(e.W, e.M.Clients[c], e.last[c]) {
 			for _, rule := range StateRules(cmd, c, d, touched) {
 				fails = append(fails, Fail{rule, fmt.Sprintf("client %d after %s: %s", c, cmd.Op, d.String())})
-			}
-		}
-		if ex.MayAccept && got.OK() && prev[c] != "" && prev[c] != e.lastSig[c] && c == cmd.C {
-			// an accepted request that should have been rejected changed something: unknowable
-			if len(fails) == 0 {
-				e.quiet("accepted request outside the claimed properties changed the state")
-				return
 			}
 		}
 		// (c) C13.invariant on every table
